@@ -327,6 +327,9 @@ func c11(c *core.Ctx) {
 	c.Clause("C11.8", "vote arithmetic reads the state of the branch being executed: in the executing packages the account as of the node's stable block (GetCanonicalAccount) is read only at the recorded asset pre-check — a balance delta of an unstable ancestor would be converted into votes twice")
 	c.Run("votes-from-block-state", func() { c11VotesFromBlockState(c) })
 
+	c.Clause("C11.9", "balance votes are floor(balance / rate) on both sides of a change: in getVotesChangesByLogs VoteExchangeRate divides a value drawn from the old balance alone and a value drawn from the new balance alone (shape of the formula only; the sums stay undecided)")
+	c.Run("quotient-difference", func() { c11VotesAreQuotientDifference(c) })
+
 	c.NotDecidedf("the tally equation itself is NOT decided: that a candidate's votes equal deposit/DepositExchangeRate + Σ balance(voter)/VoteExchangeRate over its voters (sums over runtime balances); D19 shows a reachable history where it fails")
 	c.NotDecidedf("clause 4 only says whether a negative count is prevented, not whether counts are right; clause 1 says the adjustment runs after every balance writer, not that its arithmetic (per-account floor division of old/new balance) matches the per-tx vote moves")
 	c.NotDecidedf("writes to the vote counter that bypass the accessor interface inside package account or types (decoders, Copy), and candidates' Top-list ranking (C10)")
